@@ -28,7 +28,15 @@ pub fn case_seed(base: u64, prop: &str, index: u64) -> u64 {
 
 /// Execute every plan of a case, each from an empty cache.
 pub fn run_case(plans: &[Plan]) -> Vec<RunRec> {
-    plans.iter().map(|p| KERNEL.run(p, false)).collect()
+    plans
+        .iter()
+        .map(|p| {
+            let r = KERNEL.run(p, false);
+            // every finished run is progress as far as the watchdog is concerned
+            PROGRESS.fetch_add(1, Ordering::Relaxed);
+            r
+        })
+        .collect()
 }
 
 /// The PRNG-free form of a plan after it has been executed once.
@@ -156,11 +164,13 @@ fn cmd_run(args: &[String]) {
     let count: u64 = args[5].parse().expect("count");
     let thorough = args.get(6).map(String::as_str) == Some("thorough");
     let hashfile = args.get(7).cloned();
+    // indices are first, first+stride, first+2*stride, ... (count of them)
+    let stride: u64 = args.get(8).and_then(|v| v.parse().ok()).unwrap_or(1).max(1);
     let budget_s: f64 = std::env::var("VERIF_BUDGET_S")
         .ok()
         .and_then(|s| s.parse().ok())
         .unwrap_or(1e12);
-    start_watchdog(120);
+    start_watchdog(300);
     let t0 = std::time::Instant::now();
     let mut stats = Stats::default();
     let mut digests: Vec<u64> = vec![];
@@ -169,7 +179,8 @@ fn cmd_run(args: &[String]) {
     let mut violating = 0u64;
     let mut samples = vec![];
     let stdout = std::io::stdout();
-    for index in first..first + count {
+    for k in 0..count {
+        let index = first + k * stride;
         if t0.elapsed().as_secs_f64() > budget_s {
             break;
         }
@@ -230,7 +241,7 @@ fn cmd_run(args: &[String]) {
             let _ = writeln!(lk, "{}", line.to_string());
             let _ = lk.flush();
         }
-        if samples.len() < 2 && out.nontrivial && (index - first) % 97 == 0 {
+        if samples.len() < 2 && out.nontrivial && k % 97 == 0 {
             samples.push(sample_json(prop, index, &plans, &recs));
         }
         PROGRESS.fetch_add(1, Ordering::Relaxed);
@@ -270,7 +281,7 @@ fn cmd_hashes(args: &[String]) {
     let count: u64 = args[5].parse().expect("count");
     let thorough = args.get(6).map(String::as_str) == Some("thorough");
     let reverse = args.get(7).map(String::as_str) == Some("reverse");
-    start_watchdog(120);
+    start_watchdog(300);
     // prefix=<index>: first execute another case in this process (its result is discarded), so
     // that the cases that follow run in a process with an unrelated history
     if let Some(pi) = args.get(7).and_then(|a| a.strip_prefix("prefix=")).and_then(|v| v.parse::<u64>().ok()) {
@@ -319,7 +330,7 @@ fn cmd_replay(args: &[String]) {
     for p in j.a("plans") {
         plans.push(Plan::from_json(&p).expect("plan"));
     }
-    start_watchdog(120);
+    start_watchdog(300);
     let recs = run_case(&plans);
     let out = props::check(&prop, &plans, &recs);
     let verbose = args.get(3).map(String::as_str) == Some("-v");
